@@ -98,11 +98,11 @@ def walkParseScript (s : String) : Script :=
     | some c => walkParseStatus c
     | none => (.cont, false)
 
-def walkEventStr (e : Event) : String := toString e.1 ++ (if e.2 then "e" else "l")
+def walkEventStr (e : Event) : String := astIdStr e.1 ++ (if e.2 then "e" else "l")
 
 def handleWalk : List String → String
   | ["run", n, ops, root, script] =>
-    match n.toNat?, root.toNat? with
+    match n.toNat?, (match root.toList with | [c] => astDigit? c | _ => none) with
     | some n, some root =>
       match parseAstOps (astParseCmp n "-") ops with
       | none => bad
